@@ -120,23 +120,13 @@ class History:
         self.wait(lambda: self.server.n_publishes(d["uri"]) > n)
         d.update(open=True, ever=True, client_text=text, srv_text=text, env=self.env_now(k), flags=set())
 
-    def op_change(self, k):
+    def op_change(self, k, text=None):
         d = self.docs[k]
-        text = model.make_text(self.rng, WORDS)
-        base = d.get("client_text")
-        if base is not None and self.rng.random() < 0.3:
-            # an edit that leaves every sentence alone and changes what another paragraph means for them: a sentence with
-            # bracketed words is added once, then a paragraph of link reference definitions for those words comes and goes
-            # (in Markdown the brackets are link syntax exactly while the definition exists)
-            defs = "\n\n[baited]: http://example.com/b\n[tset]: http://example.com/t\n"
-            if "[baited]" not in base:
-                text = base.rstrip("\n") + "\n\nWe waited with [baited] breath and a [tset] too.\n"
-            elif defs in base:
-                text = base.replace(defs, "\n")
-            else:
-                text = base.rstrip("\n") + defs
+        fixed = text is not None
+        if text is None:
+            text = model.make_text(self.rng, WORDS)
         n = self.server.n_publishes(d["uri"])
-        if self.rng.random() < 0.3:
+        if not fixed and self.rng.random() < 0.3:
             # one notification carrying several full-text changes: the last one is the document
             earlier = [model.make_text(self.rng, WORDS) for _ in range(self.rng.randint(1, 2))]
             self.trace.append({"op": "didChange", "doc": k, "text": text, "earlier_changes_in_same_notification": earlier})
@@ -149,6 +139,23 @@ class History:
         d["flags"].discard("reorder")
         d["flags"].discard("disk-reread")
         d["flags"].discard("not-refreshed")
+
+    def op_context(self, k):
+        """Edits that leave every sentence alone and change what another paragraph means for them: a sentence with
+        bracketed words is added (once), then a paragraph of link reference definitions for those words comes and goes.
+        In Markdown the brackets are link syntax exactly while the definition exists; every state is checked."""
+        d = self.docs[k]
+        base = d["client_text"]
+        defs = "\n\n[baited]: http://example.com/b\n[tset]: http://example.com/t\n"
+        if "[baited]" not in base:
+            base = base.rstrip("\n") + "\n\nWe waited with [baited] breath and a [tset] too.\n"
+            self.op_change(k, base)
+            self.check_all("context edit (sentence with bracketed words added)")
+        for _ in range(self.rng.randint(1, 2)):
+            base = base.replace(defs, "\n") if defs in base else base.rstrip("\n") + defs
+            self.op_change(k, base)
+            self.stats["context_edits"] = self.stats.get("context_edits", 0) + 1
+            self.check_all("context edit (link reference definitions toggled)")
 
     def refresh_from_disk(self, k):
         """What update_document_from_file does to the server's view of document k."""
@@ -438,7 +445,11 @@ def run_history(base, refbase, idx, seed, tier):
             elif not opened or (closed and r < 0.18):
                 h.op_open(rng.choice(closed))
             elif r < 0.38:
-                h.op_change(rng.choice(opened))
+                md = [k for k in opened if h.docs[k]["lang"] == "markdown"]
+                if md and rng.random() < 0.4:
+                    h.op_context(rng.choice(md))
+                else:
+                    h.op_change(rng.choice(opened))
             elif r < 0.58:
                 h.op_batch(0 if tier == "quick" else (seed + step))
             elif r < 0.68:
@@ -495,6 +506,7 @@ def run(tier, seed, scale, verif):
             for k in ("checks", "spec", "known", "not_realised", "batches"):
                 stats[k] += h.stats[k]
             stats["orders"] |= h.stats["orders"]
+            stats["context_edits"] = stats.get("context_edits", 0) + h.stats.get("context_edits", 0)
             shapes.add(tuple(t.get("op", "note") for t in h.trace))
             if len(samples) < 3 and any(t.get("op") == "batch" for t in h.trace):
                 samples.append({"history": h.trace[:6]})
@@ -519,4 +531,4 @@ def run(tier, seed, scale, verif):
         inconclusive = []
     return {"evaluations": stats["checks"], "distinct_nontrivial": len(shapes) + len(stats["orders"]), "samples": samples, "findings": list(findings.values()),
             "notes": notes, "inconclusive": inconclusive[:5], "counters": {"batches": stats["batches"], "schedules_realised": len(stats["orders"]), "schedules_not_realised": stats["not_realised"],
-                                                                           "explained_by_spec": stats["spec"], "explained_by_known_switches": stats["known"]}, "wall_s": time.time() - t0}
+                                                                           "context_edits": stats.get("context_edits", 0), "explained_by_spec": stats["spec"], "explained_by_known_switches": stats["known"]}, "wall_s": time.time() - t0}
